@@ -115,6 +115,7 @@ pub fn run_all(ctx: &mut Ctx, stream: &str) {
 		TransTagged, Box<TransTagged>, [TransTagged; 2], Rc<TransTagged>, Vec<Arc<TransTagged>>, TransTaggedAs, Box<TransTaggedAs>, [TransTaggedAs; 3],
 		TransSkipPayload, Box<TransSkipPayload>, [TransSkipPayload; 2], (Box<TransSkipPayload>, u8),
 		Vec<BTreeMap<u8, u8>>, (BTreeMap<u8, u8>, Vec<Box<u8>>), [BTreeSet<u8>; 3], Vec<BTreeSet<u16>>, (BTreeSet<u8>, BTreeSet<u8>, Box<u8>), Vec<(BTreeMap<u8, u8>, Box<u8>)>,
+		Box<[bool; 4]>, Box<[NonZeroU8; 3]>, Rc<[OptionBool; 2]>, Vec<[bool; 2]>, [[bool; 2]; 2], Arc<[NonZeroU32; 2]>, Box<[Option<bool>; 2]>, VecDeque<bool>, BinaryHeap<bool>,
 		Result<u8, u64>, Result<(), u8>, Result<(), [u8; 32]>, Option<Result<u8, (u16, u16)>>, Result<u64, u8>, [Result<bool, u32>; 2],
 		Option<(u8, u16)>, Result<u32, (u8, u8)>, [(u8, bool); 3], Range<(u8, u8)>, Box<[u16; 4]>, Arc<(u8, u64)>, Rc<(u8, u64)>,
 	);
